@@ -1499,7 +1499,8 @@ func (cpu *CPU) op_jmp() {
 		cpu.PC = cpu.Bus.nRead16_wrap(0x00, cpu.StepInfo.Addr)
 		cpu.RK = cpu.Bus.nRead(0x00, cpu.StepInfo.Addr+2)
 	default:
-		cpu.PC = cpu.cmdRead16()
+		// (a,X): the pointer was read with both bytes inside the program bank
+		cpu.PC = cpu.StepInfo.Addr
 	}
 	cpu.stepPC = 0
 }
@@ -1520,7 +1521,8 @@ func (cpu *CPU) op_jsr() {
 	case m_Absolute:
 		cpu.PC = cpu.StepInfo.Addr
 	default:
-		cpu.PC = cpu.cmdRead16()
+		// (a,X): the pointer was read with both bytes inside the program bank
+		cpu.PC = cpu.StepInfo.Addr
 	}
 	cpu.stepPC = 0
 }
